@@ -5,18 +5,11 @@ import "math"
 // Functions that are OUTSIDE the go2coq subset: the translator must refuse each of them with
 // a message naming the construct (bad_expect.txt); translator/selftest.sh checks that.
 
-func BadSqrt(x float64) float64 { return math.Sqrt(x) }
+func BadSqrt(x float64) float64 { return math.Log(x) }
 
 func BadMap(k int) float64 {
 	m := map[int]float64{1: 2}
 	return m[k]
-}
-
-func BadWhile(x float64) float64 {
-	for x < 10 {
-		x *= 2
-	}
-	return x
 }
 
 func BadBreak(xs []int) int {
@@ -47,14 +40,21 @@ func BadParallel(a []int) int {
 	return i
 }
 
+// Go closures capture by reference: x is assigned after f captured it
 func BadClosure(x float64) float64 {
 	f := func(y float64) float64 { return y + x }
+	x = 2
 	return f(1)
 }
 
-func BadAppend(xs []float64) []float64 { return append(xs, 1) }
+// a sub-slice shares memory with xs: the write through w would be lost
+func BadAppend(xs []float64) []float64 {
+	w := xs[1:]
+	w[0] = 1
+	return xs
+}
 
-func BadSlice(xs []float64) []float64 { return xs[1:] }
+func BadSlice(xs []float64) []float64 { return xs[0:1:2] }
 
 func BadRecursion(n int) int {
 	if n <= 0 {
@@ -64,7 +64,7 @@ func BadRecursion(n int) int {
 }
 
 func BadGo(x float64) float64 {
-	go BadSqrt(x)
+	go WhileDouble(x)
 	return x
 }
 
@@ -75,7 +75,7 @@ func BadPtr(x float64) float64 {
 	return *p
 }
 
-func BadShiftSigned(k int) int { return k << 1 }
+func BadShiftSigned(k int) int { return k >> 1 }
 
 func BadFloat32(x float32) float32 { return x * 2 }
 
@@ -85,4 +85,118 @@ func (o *other) set(a *Acc) { a.S = o.v }
 
 func BadOtherPtr(a *Acc, o *other) {
 	o.set(a)
+}
+
+// a call of a function with fuel nested in an expression
+func BadFuelExpr(n int) int { return 2 * Collatz(n) }
+
+func BadWhileBreak(x float64) float64 {
+	for x < 10 {
+		if x < 0 {
+			break
+		}
+		x *= 2
+	}
+	return x
+}
+
+// an interface value chosen at run time: the opaque method would stand for two different values
+func BadIfaceTwo(a, b Counter, pick bool) int {
+	c := a
+	if pick {
+		c = b
+	}
+	return c.Count(1)
+}
+
+func BadAssert(v interface{}) float64 { return v.(float64) }
+
+// the opaque name cntf stands for Counter.Count (int -> int) and for math.Sqrt (float -> float)
+func BadOpaqueClash(c Counter, x float64) float64 { return math.Sqrt(x) + float64(c.Count(1)) }
+
+func BadClosureLoop(xs []float64) float64 {
+	s := 0.0
+	for _, x := range xs {
+		f := func(y float64) float64 { return y * 2 }
+		s += f(x)
+	}
+	return s
+}
+
+// continue in a for-cond loop would have to run the post statement
+func BadContinueWhile(x float64) float64 {
+	for x < 10 {
+		x *= 2
+		if x < 3 {
+			continue
+		}
+		x++
+	}
+	return x
+}
+
+// a recursive closure with a result
+func BadRecResult(n int) int {
+	var fact func(k int) int
+	fact = func(k int) int {
+		if k <= 1 {
+			return 1
+		}
+		return k * fact(k-1)
+	}
+	return fact(n)
+}
+
+// a recursive closure used as a value
+func BadRecEscape(n int) int {
+	total := 0
+	var f func(k int)
+	f = func(k int) {
+		if k > 0 {
+			total += k
+			f(k - 1)
+		}
+	}
+	g := f
+	g(n)
+	return total
+}
+
+// a backward goto
+func BadGotoBack(n int) int {
+	i := 0
+loop:
+	i++
+	if i < n {
+		goto loop
+	}
+	return i
+}
+
+// goto out of a loop that is not a pure search loop
+func BadGotoLoop(xs []int, v int) int {
+	k := 0
+	for _, x := range xs {
+		if x == v {
+			goto found
+		}
+		k++
+	}
+	k = -1
+found:
+	return k
+}
+
+// a call of a function that returns a closure
+func BadCurriedCall(k int) int {
+	f := MakeScale(Dbl{}, k)
+	return f(10)
+}
+
+// comma-ok assertion to a concrete type
+func BadAssertOk(s Scaler) int {
+	if d, ok := s.(Dbl); ok {
+		return d.Scale(1)
+	}
+	return 0
 }
